@@ -6,6 +6,10 @@
 package main
 
 import (
+	"github.com/bytom/bytom/consensus"
+	"github.com/bytom/bytom/protocol/bc/types"
+	"github.com/bytom/bytom/protocol/vm/vmutil"
+
 	"encoding/json"
 	"fmt"
 	"os"
@@ -20,9 +24,10 @@ import (
 )
 
 var (
-	W     *chainlab.World
-	hists [][]int
-	names []string
+	W      *chainlab.World // world of the history being executed
+	hists  [][]int
+	names  []string
+	worlds []*chainlab.World // world per history
 )
 
 func world(thorough bool) {
@@ -48,7 +53,11 @@ func world(thorough bool) {
 		w.Events = append(w.Events, chainlab.Event{Kind: chainlab.EvBlockSL, Block: b, Src: s, Signers: signers, Name: fmt.Sprintf("B:%s+sig%v(%s)", w.Names[b], signers, w.Names[s])})
 		return len(w.Events) - 1
 	}
-	add := func(n string, h ...int) { hists = append(hists, h); names = append(names, n) }
+	add := func(n string, h ...int) {
+		hists = append(hists, h)
+		names = append(names, n)
+		worlds = append(worlds, w)
+	}
 	add("linear-two-epochs", B[a1], B[a2], B[a3], B[a4], B[a5])
 	add("reorg-by-height", B[a1], B[a2], B[b1], B[b2], B[b3])
 	add("reorg-by-justification", B[a1], B[a2], B[a3], B[b1], B[b2], V(0, 0, b2), V(1, 0, b2), V(2, 0, b2))
@@ -62,7 +71,77 @@ func world(thorough bool) {
 		add("finalize-then-fork-arrives", B[a1], SL(a2, 0, 0, 1, 2), B[a3], SL(a4, a2, 0, 1, 2), B[b1], B[b2], B[b3], B[b4], B[a5])
 		add("justify-both-forks", B[a1], B[a2], B[b1], B[b2], V(0, 0, a2), V(1, 0, a2), V(2, 0, a2), V(3, 0, b2), B[a3], B[b3], B[b4])
 	}
+	if thorough {
+		// every interleaving of length 7 of: next block of branch a, next block of branch b, next vote for b2,
+		// next vote for a2 (votes in validator order, after their target)
+		aChain := []int{B[a1], B[a2], B[a3], B[a4], B[a5]}
+		bChain := []int{B[b1], B[b2], B[b3], B[b4]}
+		vb := []int{V(0, 0, b2), V(1, 0, b2), V(2, 0, b2)}
+		va := []int{V(1, 0, a2), V(2, 0, a2), V(3, 0, a2)}
+		var rec func(h []int, ia, ib, ivb, iva int)
+		rec = func(h []int, ia, ib, ivb, iva int) {
+			if len(h) == 7 {
+				add(fmt.Sprintf("gen-%d", len(hists)), h...)
+				return
+			}
+			ext := func(e int) []int { return append(append([]int{}, h...), e) }
+			if ia < len(aChain) {
+				rec(ext(aChain[ia]), ia+1, ib, ivb, iva)
+			}
+			if ib < len(bChain) {
+				rec(ext(bChain[ib]), ia, ib+1, ivb, iva)
+			}
+			if ivb < len(vb) && ib >= 2 {
+				rec(ext(vb[ivb]), ia, ib, ivb+1, iva)
+			}
+			if iva < len(va) && ia >= 2 {
+				rec(ext(va[iva]), ia, ib, ivb, iva+1)
+			}
+		}
+		rec(nil, 0, 0, 0, 0)
+	}
 	W = w
+	txWorld(net, thorough)
+}
+
+// txWorld: histories with transactions on top of the prelude (utxo and contract writes in the chain-status batch,
+// detach/attach of spends, votes, coinbase spends and contract registrations during reorganisations).
+func txWorld(net *labnet.Net, thorough bool) {
+	P, err := chainlab.NewPrelude(net, 16)
+	if err != nil {
+		ev.Fatal("prelude: %v", err)
+	}
+	w := chainlab.NewWorld(net, P.Tip, P.Base)
+	btm := func(amount uint64, prog []byte) *types.TxOutput {
+		return types.NewOriginalTxOutput(*consensus.BTMAssetID, amount, prog, nil)
+	}
+	reg, _ := vmutil.RegisterProgram([]byte{0x51})
+	tv := labnet.Tx([]labnet.Out{P.U[0]}, []*types.TxOutput{types.NewVoteOutput(*consensus.BTMAssetID, 100000000, labnet.Prog(0x30), net.Pubs[1][:], nil), btm(chainlab.UAmount-100000000-labnet.Fee, labnet.Prog(0x31))})
+	tk := labnet.Tx([]labnet.Out{P.U[1]}, []*types.TxOutput{btm(10000000, reg), btm(chainlab.UAmount-10000000-labnet.Fee, labnet.Prog(0x32))})
+	a1 := w.AddBlock(0, "ta1", labnet.BlockOpt{Txs: []*types.Tx{tv, tk}})
+	a2 := w.AddBlock(a1, "ta2", labnet.BlockOpt{Txs: []*types.Tx{labnet.Pay([]labnet.Out{P.Reward[7]}, labnet.Prog(0x33))}})
+	a3 := w.AddBlock(a2, "ta3", labnet.BlockOpt{Txs: []*types.Tx{labnet.Pay([]labnet.Out{{Tx: tv, Idx: 0}}, labnet.Prog(0x34))}})
+	tu := labnet.Pay([]labnet.Out{P.U[0]}, labnet.Prog(0x36))
+	b1 := w.AddBlock(0, "tb1", labnet.BlockOpt{Tag: 1, Txs: []*types.Tx{tu}})
+	b2 := w.AddBlock(b1, "tb2", labnet.BlockOpt{Tag: 1, Txs: []*types.Tx{labnet.Pay([]labnet.Out{{Tx: tu, Idx: 0}}, labnet.Prog(0x38))}})
+	b3 := w.AddBlock(b2, "tb3", labnet.BlockOpt{Tag: 1})
+	b4 := w.AddBlock(b3, "tb4", labnet.BlockOpt{Tag: 1})
+	w.AddBlockEvents()
+	B := map[int]int{}
+	for i, e := range w.Events {
+		B[e.Block] = i
+	}
+	add := func(n string, h ...int) {
+		hists = append(hists, h)
+		names = append(names, n)
+		worlds = append(worlds, w)
+	}
+	add("tx-linear", B[a1], B[a2], B[a3])
+	add("tx-reorg-detaches-vote-veto-coinbase-spend", B[a1], B[a2], B[a3], B[b1], B[b2], B[b3], B[b4])
+	if thorough {
+		add("tx-reorg-interleaved", B[a1], B[b1], B[a2], B[b2], B[b3], B[a3], B[b4])
+		add("tx-orphans", B[b2], B[a2], B[a1], B[b1], B[b3], B[a3], B[b4])
+	}
 }
 
 type obs struct {
@@ -102,6 +181,7 @@ func (o obs) chain() string { return o.Best + "|" + o.Main + "|" + o.Ledger }
 func runCase(h []int, _ json.RawMessage) (out xplore.Out) {
 	hi := h[0]
 	hist := hists[hi]
+	W = worlds[hi]
 	viol := func(key, what string) {
 		out.Viols = append(out.Viols, xplore.Viol{Key: key, What: fmt.Sprintf("history %s %v: %s", names[hi], W.Describe(hist), what)})
 	}
@@ -231,12 +311,12 @@ func matchesStoredBlocks(db *crashkv.DB, hist []int, o obs) bool {
 		}
 	}
 	for _, withVotes := range []bool{false, true} {
-		for maxH := uint64(1); maxH < 16; maxH++ {
+		for maxH := W.Blocks[0].Height + 1; maxH < W.Blocks[0].Height+16; maxH++ {
 			in, err := W.NewInst()
 			if err != nil {
 				return false
 			}
-			for ht := uint64(1); ht <= maxH; ht++ {
+			for ht := W.Blocks[0].Height + 1; ht <= maxH; ht++ {
 				for _, bi := range stored {
 					if W.Blocks[bi].Height != ht {
 						continue
@@ -301,8 +381,8 @@ func main() {
 		}
 	}
 	world(thorough)
-	spec := &xplore.Spec{Name: "c19", Run: runCase, Recycle: 1, Describe: func(h []int) interface{} {
-		return map[string]interface{}{"history": names[h[0]], "events": W.Describe(hists[h[0]])}
+	spec := &xplore.Spec{Name: "c19", Run: runCase, Recycle: 8, Describe: func(h []int) interface{} {
+		return map[string]interface{}{"history": names[h[0]], "events": worlds[h[0]].Describe(hists[h[0]])}
 	}}
 	if par.IsWorker() {
 		xplore.Worker(spec)
